@@ -163,7 +163,7 @@ class SMChart(BaseChart):
             raise KeyError
 
     def __setitem__(self, property: str, value: str) -> None:
-        if property.upper() not in SM_CHART_PROPERTIES:
+        if property not in SM_CHART_PROPERTIES:
             raise KeyError
         else:
             return super().__setitem__(property, value)
